@@ -4,7 +4,7 @@ import re
 from .. import tsg2c as X
 CPP = "DREAM/Optimization/tsgGradientDescent.cpp"
 
-def emit_adaptive(R, contract=None, loop_contracts=None):
+def emit_adaptive(R, contract=None, loop_contracts=None, abstract_test=False):
     text = X.strip_comments(X.read_source(CPP))
     (p,) = X.cut(CPP, r'OptimizationStatus\s+GradientDescent\s*\(\s*const\s+ObjectiveFunctionSingle\s*&func\s*,\s*const\s+GradientFunctionSingle\s*&grad\s*,\s*const\s+ProjectionFunctionSingle\s*&proj\s*,[^{]*?GradientDescentState\s*&state\s*\)', text)
     for nm in ("increase_coeff", "decrease_coeff", "max_iterations", "tolerance"):
@@ -30,11 +30,16 @@ def emit_adaptive(R, contract=None, loop_contracts=None):
     b = X.balanced_call_sub(R, "R8-callback", b, r'(?<![\w>.])proj\s*(?=\()', lambda m, a: "cb_proj(%s)" % ", ".join(vs(q) for q in X.split_top(a)))
     b = X.balanced_call_sub(R, "R5-vector-arg", b, r'\bcomputeStationarityResidual\s*(?=\()',
                             lambda m, a: "computeStationarityResidual(%s, %s)" % (", ".join(vs(q) for q in X.split_top(a)[:4]), X.split_top(a)[4]))
+    if abstract_test:
+        # R13: the descent test becomes an uninterpreted predicate of its two sides (F17 does not depend on what the test is)
+        b = R.sub("R13-fp-test", r'while\s*\(\s*lhs\s*>\s*rhs\s*\+\s*num_tol\s*\)', 'while (tsg_descent_fails(lhs, rhs + num_tol))', b)
+        R.require({"R13-fp-test": 1})
     X.check_leftover(chdr + b, "GradientDescent")
     R.require({"R2-brace-init": 1, "R10-member": 8, "R5-copy-init": 1, "R5-local-vector": 4, "R2-paren-init": 2, "R5-swap": 5, "R8-callback": 5, "R5-vector-arg": 1})
     out = '#line %d "%s"\n' % (p.line, X.REPO + "/" + p.rel) + X.splice(chdr, b, contract, loop_contracts)
     info = {"functions": [{"name": "TasOptimization::GradientDescent(func,grad,proj,...)", "file": p.rel, "line": p.line, "loops": X.count_loops(b)}],
             "fidelity": X.fidelity(p.src_body, b, extra_vocab=["state", "func", "grad", "proj", "swap", "getNumDimensions", "x", "x0", "gx0", "gx", "z0", "xStep"], slack=1),
+            "abstract_test": abstract_test,
             "drops": ["std::function indirection of func/grad/proj (R8)"], "rules_fired": {k: v for k, v in R.counts.items() if v}}
     return out, info
 
